@@ -5,7 +5,13 @@ cancel (of pending, granted, finished acquisitions) / run(f) (f returns, raises,
 returns a Deferred fired later with success or failure, or already fired) /
 resolve-f's-Deferred / cancel-of-run on one real DeferredLock or
 DeferredSemaphore(1..3); a fraction of runs also issues operations re-entrantly
-from inside a grant callback or from inside f.  The tape picks every operation.
+from inside a grant callback, from inside f, from inside the errback of an
+acquisition that was cancelled while it waited (the client that gives up hands back
+what it holds, asks again, ... at once) and from inside the caller's callback on a
+run() / async-with result.  A few runs contain one burst: a batch of 8..LONG_QUEUE_MAX
+requests handed in at once while nothing is free, most of them run() calls whose
+function has its result immediately, so that a later release hands the unit on
+through a long queue in one go.  The tape picks every operation.
 
 The result object of f takes every shape the interface accepts: a plain value, a
 raised exception, a returned Failure, a plain Deferred (fired, failed, pending,
@@ -31,8 +37,12 @@ exactly that acquisition; after every operation (and at every re-entry point)
 the real capacity attributes, the waiter count, and the grant log are compared
 with the model.
 """
+import sys
+
 from twisted.internet import defer
 from twisted.python.failure import Failure
+
+from detsim.sim import StepLimit, Violation
 
 ID = "C06"
 ENGINE = "tasks"
@@ -52,7 +62,11 @@ RULE = ("run = up to 40 tape-chosen operations (acquire / release by a holder / 
         "canceller, called-but-chained Deferred, instance of an application's Deferred subclass, gatherResults()/DeferredList() over "
         "0..2 sub-operations fired one at a time, coroutine} / the same body inside `async with primitive:` of a coroutine client "
         "(share drawn per run: 0, 0.3, 0.6) / fire a pending result with success or failure / cancel of a run or of an async-with "
-        "task while it waits and while it is inside / the same issued re-entrantly from a grant callback or from inside f) "
+        "task while it waits and while it is inside / the same issued re-entrantly from a grant callback, from inside f, from the "
+        "errback of an acquisition (plain, run(), async-with) cancelled while it waited, or from the caller's callback on a run() / "
+        "async-with result / in LONG_QUEUE_P of the runs one burst of 8..LONG_QUEUE_MAX requests queued at once behind the holders: "
+        "all, or 16 in 18 / 16 in 22, run() calls with an immediate result, the others plain acquisitions and arbitrary run() calls; in "
+        "DEEP_QUEUE_P of the runs the burst is 100..DEEP_QUEUE_MAX identical run() calls with an immediate result and the drain is full) "
         "on a DeferredLock or DeferredSemaphore(1..3) - in 2/3 of the runs beside a live companion lock/semaphore(2) with its own "
         "acquire/release traffic and model - followed by a drain (coroutine clients finished; in half of the runs every outstanding "
         "result fired and every holder released, then all capacity must be back); non-trivial = some acquisition had to wait and was granted later AND "
@@ -65,7 +79,45 @@ ASSUMPTIONS = ["release() is only called by a current holder obtained through ac
                "holder's release",
                "an async-with task is cancelled only while it is suspended (waiting to enter, or awaiting inside its block), never "
                "from inside its own running body (what the coroutine machinery does then is not this property's business)",
-               "sub-operation failures of gatherResults()/DeferredList() are consumed (consumeErrors=True)"]
+               "sub-operation failures of gatherResults()/DeferredList() are consumed (consumeErrors=True)",
+               "while the errback of a cancelled pending acquisition runs, the length of the internal waiting list is not compared "
+               "(the statement says what a cancelled acquisition never gets, not when the object forgets it); what is done from "
+               "inside that errback must behave as the model says, and the list is compared when cancel() has returned",
+               "outside the deep runs queues stay far below the length at which the hand-over from one finished synchronous run() to the "
+               "next - a nested call per queued request - exhausts the interpreter stack (LONG_QUEUE_MAX = 48).  DEEP_QUEUE_P of the "
+               "runs queue 100..DEEP_QUEUE_MAX identical run() calls with an immediate result and have them handed on by one release "
+               "with DEEP_STACK_ROOM interpreter frames below run(); once an operation of a run has granted DEEP_HANDOVER or more "
+               "acquisitions, every clause that fails in that run is reported as handover-recursion:<clause> (listed known finding, "
+               "see FINDINGS); runs without such an operation cannot carry that clause"]
+
+
+# ---- module-level knobs
+LONG_QUEUE_P = 0.02    # share of the runs in which one client burst queues many requests at once behind the current holders
+LONG_QUEUE_MAX = 48    # longest burst.  Every hand-over from a finished synchronous run() to the next queued one is a nested call
+#                        (release -> grant callback -> function -> release ...), about 8 interpreter frames per queued request;
+#                        beyond ~110 queued synchronous requests the unchanged tree exhausts the interpreter stack in the middle
+#                        of a hand-over and loses the unit (known finding, see ASSUMPTIONS) - 200 here reaches it.
+DEEP_QUEUE_P = 0.01    # share of the runs whose burst is DEEP: 100..DEEP_QUEUE_MAX identical run() calls with an immediate result queued
+DEEP_QUEUE_MAX = 200   # behind the holders and handed on by one release - the precondition of the listed known finding
+#                        C06:handover-recursion:* (see FINDINGS).  Everything such a run reports carries that clause.
+DEEP_HANDOVER = 100    # this many grants inside one operation make a run a deep-hand-over run
+DEEP_STACK_ROOM = 1000  # interpreter frames available to a deep run below run() (= the default recursion limit, measured from
+#                        run() itself so that the outcome does not depend on how deep the caller of run() happens to be)
+_saved = {"limit": None}
+
+
+def _stack_depth():
+    f, n = sys._getframe(), 0
+    while f is not None:
+        n += 1
+        f = f.f_back
+    return n
+
+
+def cleanup(sim):
+    if _saved["limit"] is not None:
+        sys.setrecursionlimit(_saved["limit"])
+        _saved["limit"] = None
 
 
 class BoomError(Exception):
@@ -112,6 +164,7 @@ class Model:
 # subclass) returned by gatherResults() / DeferredList() over 0..2 sub-operations - the result is available when the last
 # sub-operation has fired (gather: or the first one has failed); "coroutine": f returns a coroutine that awaits a pending Deferred;
 # "failure-returned": f returns (does not raise) a Failure
+SYNC_F_MODES = [("value", 4), ("raise", 2), ("fired", 2), ("failed", 1), ("failure-returned", 1)]   # the result is there when f returns
 F_MODES = [("value", 4), ("raise", 3), ("pending", 6), ("fired", 2), ("failed", 2), ("pending-canceller", 2), ("pending-chained", 3),
            ("gather", 3), ("pending-subclass", 2), ("coroutine", 3), ("dlist", 2), ("failure-returned", 1)]
 
@@ -153,8 +206,16 @@ def run(sim):
     with_p = sim.draw_choice([0.0, 0.3, 0.6], "async_with_share")
     drain = sim.draw_choice(["tasks", "full"], "drain")
     companion = sim.draw_choice(["none", "lock", "semaphore"], "companion")
+    burst = sim.draw_int(8, LONG_QUEUE_MAX, "burst") if LONG_QUEUE_P and sim.draw_bool(LONG_QUEUE_P, "long_queue") else 0
+    deep = bool(DEEP_QUEUE_P) and sim.draw_bool(DEEP_QUEUE_P, "deep_queue")
+    if deep:
+        burst = sim.draw_int(DEEP_HANDOVER, DEEP_QUEUE_MAX, "deep_burst")
+        drain = "full"     # every holder releases in the end, so the batch is handed on for certain
+        if _saved["limit"] is None:
+            _saved["limit"] = sys.getrecursionlimit()
+        sys.setrecursionlimit(_stack_depth() + DEEP_STACK_ROOM)
     sim.config = {"primitive": "lock" if is_lock else "semaphore", "limit": limit, "nops": nops, "reentrant": reent_p,
-                  "async_with": with_p, "drain": drain, "companion": companion}
+                  "async_with": with_p, "drain": drain, "companion": companion, "burst": burst, "deep": deep}
     prim = defer.DeferredLock() if is_lock else defer.DeferredSemaphore(limit)
     m = Model(limit)
 
@@ -162,7 +223,30 @@ def run(sim):
     order = []           # ids in creation order
     real_grants = []     # ids in the order their grant was observed on the real object
     real_holders = set()  # granted on the real object and not yet released by the harness / by run
-    st = {"next": 0, "depth": 0, "draining": False}
+    st = {"next": 0, "depth": 0, "draining": False, "burst": burst, "in_errback": 0, "op_grants": 0, "deep_handover": False}
+
+    # ---- verdicts.  In a run in which one operation has handed the unit on through DEEP_HANDOVER or more queued requests, whatever
+    # clause fails is reported as handover-recursion:<clause> (the listed known finding); no other run can carry that clause.
+    def check(clause, cond, witness="", detail=""):
+        if cond:
+            return
+        if st["deep_handover"]:
+            sim.check("handover-recursion", False, clause, detail)
+        sim.check(clause, False, witness, detail)
+
+    class guard:
+        def __init__(self, clause, witness):
+            self.clause, self.witness = clause, witness
+
+        def __enter__(self):
+            return self
+
+        def __exit__(self, et, ev, tb):
+            if et is None or issubclass(et, Violation) or not issubclass(et, Exception) or issubclass(et, StepLimit):
+                return False
+            check(self.clause, False, "%s:%s" % (self.witness, et.__name__), "%s: %s" % (et.__name__, str(ev)[:200]))
+            return False
+
     flags = {"waited_then_granted": 0, "special": 0}
 
     def new(kind, fmode=None, via=None):
@@ -185,14 +269,14 @@ def run(sim):
         if cprim is None:
             return
         if companion == "lock":
-            sim.check("capacity-conserved", bool(cprim.locked) == (len(cm.holders) == 1), "companion",
+            check("capacity-conserved", bool(cprim.locked) == (len(cm.holders) == 1), "companion",
                       lambda: "companion locked=%r model holders=%r" % (cprim.locked, cm.holders))
         else:
-            sim.check("capacity-conserved", cprim.tokens + len(cm.holders) == climit, "companion",
+            check("capacity-conserved", cprim.tokens + len(cm.holders) == climit, "companion",
                       lambda: "companion tokens=%r limit=%d model holders=%r" % (cprim.tokens, climit, cm.holders))
-        sim.check("waiters-match", len(cprim.waiting) == len(cm.waiters), "companion",
+        check("waiters-match", len(cprim.waiting) == len(cm.waiters), "companion",
                   lambda: "companion real waiting=%d model waiters=%r" % (len(cprim.waiting), cm.waiters))
-        sim.check("grants-match", cgrants == cm.grants, "companion",
+        check("grants-match", cgrants == cm.grants, "companion",
                   lambda: "companion real grant order=%r model=%r" % (cgrants, cm.grants))
 
     def op_companion():
@@ -201,44 +285,51 @@ def run(sim):
             h = cm.holders[0]
             nxt = cm.release(h)
             sim.event("companion-release", h, "next=%s" % (nxt if nxt is not None else "-"))
-            with sim.guard("op-raised", "release"):
+            with guard("op-raised", "release"):
                 cprim.release()
         else:
             k = cst["next"]
             cst["next"] += 1
             granted = cm.acquire(k)
             sim.event("companion-acquire", k, "grant" if granted else "wait")
-            with sim.guard("op-raised", "acquire"):
+            with guard("op-raised", "acquire"):
                 d = cprim.acquire()
 
             def got(res, k=k):
-                sim.check("fires-with-primitive", res is cprim, "companion", lambda: "companion acquisition %d fired with %r" % (k, type(res).__name__))
+                check("fires-with-primitive", res is cprim, "companion", lambda: "companion acquisition %d fired with %r" % (k, type(res).__name__))
                 cgrants.append(k)
             d.addCallback(got)
 
-    def check_state(where):
+    def check_state(where, queue=True):
         check_companion()
         holders = len(m.holders)
         if is_lock:
-            sim.check("capacity-conserved", bool(prim.locked) == (holders == 1), where,
+            check("capacity-conserved", bool(prim.locked) == (holders == 1), where,
                       lambda: "locked=%r model holders=%r" % (prim.locked, m.holders))
         else:
-            sim.check("capacity-conserved", prim.tokens + holders == limit, where,
+            check("capacity-conserved", prim.tokens + holders == limit, where,
                       lambda: "tokens=%r limit=%d model holders=%r" % (prim.tokens, limit, m.holders))
-        sim.check("waiters-match", len(prim.waiting) == len(m.waiters), where,
-                  lambda: "real waiting=%d model waiters=%r" % (len(prim.waiting), m.waiters))
-        sim.check("grants-match", real_grants == m.grants, where,
+        if queue and not st["in_errback"]:
+            # (not while the errback of a cancelled acquisition is running: the statement says what such an acquisition must never
+            # get, not at which moment the implementation forgets it - the comparison follows when the cancel() call is over)
+            check("waiters-match", len(prim.waiting) == len(m.waiters), where,
+                      lambda: "real waiting=%d model waiters=%r" % (len(prim.waiting), m.waiters))
+        check("grants-match", real_grants == m.grants, where,
                   lambda: "real grant order=%r model=%r" % (real_grants, m.grants))
-        sim.check("holders-within-limit", len(real_holders) <= limit, where,
+        check("holders-within-limit", len(real_holders) <= limit, where,
                   lambda: "real holders=%r limit=%d" % (sorted(real_holders), limit))
 
     def observed_grant(a, where):
         r = recs[a]
         sim.event("granted", a)
+        st["op_grants"] += 1
+        if st["op_grants"] == DEEP_HANDOVER:
+            st["deep_handover"] = True
+            sim.probe("deep_handover_100_or_more_grants_in_one_operation")
         real_holders.add(a)
-        sim.check("holders-within-limit", len(real_holders) <= limit, where,
+        check("holders-within-limit", len(real_holders) <= limit, where,
                   lambda: "real holders=%r limit=%d" % (sorted(real_holders), limit))
-        sim.check("granted-in-request-order", a in m.holders and a not in real_grants, where,
+        check("granted-in-request-order", a in m.holders and a not in real_grants, where,
                   lambda: "acquisition %d granted by the real object; model holders=%r waiters=%r already=%r"
                   % (a, m.holders, m.waiters, real_grants))
         real_grants.append(a)
@@ -246,16 +337,22 @@ def run(sim):
             flags["waited_then_granted"] += 1
         r["state"] = "holding"
 
-    def maybe_reenter(where):
+    def maybe_reenter(where, probe=None, queue=True):
         if reent_p and not st["draining"] and st["depth"] < 2 and sim.draw_bool(reent_p, "reenter"):
             st["depth"] += 1
             flags["special"] += 1
             sim.probe("reentrant_op")
+            if probe:
+                sim.probe(probe)
+            if not queue:
+                st["in_errback"] += 1
             try:
-                check_state(where)
+                check_state(where, queue)
                 do_op(choose_op())
             finally:
                 st["depth"] -= 1
+                if not queue:
+                    st["in_errback"] -= 1
 
     # ---- callbacks on real Deferreds
     def on_acquire_result(res, a):
@@ -263,12 +360,14 @@ def run(sim):
         r["res"].append(res)
         if isinstance(res, Failure):
             sim.event("acq-failed", a, res.type.__name__)
-            sim.check("cancelled-never-granted", res.check(defer.CancelledError) and r["state"] == "cancelled", "acquire",
+            check("cancelled-never-granted", res.check(defer.CancelledError) and r["state"] == "cancelled", "acquire",
                       lambda: "acquisition %d (state %s) failed with %r" % (a, r["state"], res.value))
+            # the client that gave up reacts at once, from its errback (asks again, hands back what it holds, starts a run ...)
+            maybe_reenter("in-cancel-errback", "reentrant_op_from_errback_of_cancelled_acquisition", queue=False)
             return None
-        sim.check("cancelled-never-granted", r["state"] != "cancelled", "acquire",
+        check("cancelled-never-granted", r["state"] != "cancelled", "acquire",
                   lambda: "cancelled acquisition %d was granted" % a)
-        sim.check("fires-with-primitive", res is prim, "acquire", lambda: "acquisition %d fired with %r" % (a, type(res).__name__))
+        check("fires-with-primitive", res is prim, "acquire", lambda: "acquisition %d fired with %r" % (a, type(res).__name__))
         observed_grant(a, "acquire")
         maybe_reenter("in-grant-callback")
         return None
@@ -284,8 +383,8 @@ def run(sim):
             r = recs[a]
             r["f_calls"] += 1
             where = "run" if r["via"] == "run" else "async-with"
-            sim.check("run-fn-called-once", r["f_calls"] == 1 and arg == a, where, lambda: "f of run %d called %d times" % (a, r["f_calls"]))
-            sim.check("cancelled-never-granted", r["state"] != "cancelled", where, lambda: "cancelled run %d had its function called" % a)
+            check("run-fn-called-once", r["f_calls"] == 1 and arg == a, where, lambda: "f of run %d called %d times" % (a, r["f_calls"]))
+            check("cancelled-never-granted", r["state"] != "cancelled", where, lambda: "cancelled run %d had its function called" % a)
             observed_grant(a, where)
             r["state"] = "in_f"
             maybe_reenter("in-run-function")
@@ -360,7 +459,7 @@ def run(sim):
 
         async def task():
             async with prim as got:
-                sim.check("fires-with-primitive", got is prim, "async-with", lambda: "async with of %d bound %r" % (a, type(got).__name__))
+                check("fires-with-primitive", got is prim, "async-with", lambda: "async with of %d bound %r" % (a, type(got).__name__))
                 out = f(a)
                 if isinstance(out, Failure):
                     out.raiseException()
@@ -375,14 +474,17 @@ def run(sim):
         where = "run" if r["via"] == "run" else "async-with"
         sim.event("run-result", a, _show(res))
         if r["state"] == "cancelled":
-            sim.check("cancelled-never-granted", isinstance(res, Failure) and res.check(defer.CancelledError) and r["f_calls"] == 0,
+            check("cancelled-never-granted", isinstance(res, Failure) and res.check(defer.CancelledError) and r["f_calls"] == 0,
                       where, lambda: "cancelled queued run %d: result %r f_calls=%d" % (a, res, r["f_calls"]))
+            maybe_reenter("in-cancel-errback", "reentrant_op_from_errback_of_cancelled_acquisition", queue=False)
             return None
-        sim.check("run-result-after-release", r["state"] == "done" and r["expect"] is not None, where,
+        check("run-result-after-release", r["state"] == "done" and r["expect"] is not None, where,
                   lambda: "run %d delivered %r in state %s" % (a, res, r["state"]))
-        sim.check("run-result-is-fn-result", _matches(r["expect"], res), where, lambda: "run %d delivered %r expected %r" % (a, res, r["expect"]))
+        check("run-result-is-fn-result", _matches(r["expect"], res), where, lambda: "run %d delivered %r expected %r" % (a, res, r["expect"]))
         # by now the unit has been returned: capacity must agree with the model
         check_state("at-run-result" if r["via"] == "run" else "at-async-with-result")
+        # the caller's own callback on the result goes on using the primitive
+        maybe_reenter("in-run-result-callback" if r["via"] == "run" else "in-async-with-result-callback", "reentrant_op_from_run_result_callback")
         return None
 
     # ---- operations
@@ -392,36 +494,62 @@ def run(sim):
         recs[a]["waited"] = not granted
         recs[a]["state"] = "waiting"
         sim.event("acquire", a, "grant" if granted else "wait")
-        with sim.guard("op-raised", "acquire"):
+        with guard("op-raised", "acquire"):
             d = prim.acquire()
         recs[a]["d"] = d
         d.addBoth(on_acquire_result, a)
         if granted:
-            sim.check("granted-when-free", a in real_grants, "acquire", lambda: "capacity free but acquisition %d did not fire" % a)
+            check("granted-when-free", a in real_grants, "acquire", lambda: "capacity free but acquisition %d did not fire" % a)
         else:
-            sim.check("no-early-grant", not recs[a]["res"], "acquire", lambda: "no capacity but acquisition %d fired" % a)
+            check("no-early-grant", not recs[a]["res"], "acquire", lambda: "no capacity but acquisition %d fired" % a)
 
-    def op_run():
-        fmode = sim.draw_weighted(F_MODES, "fmode")
-        via = "with" if with_p and sim.draw_bool(with_p, "via-async-with") else "run"
+    def op_run(modes=F_MODES, fixed=None):
+        fmode = fixed or sim.draw_weighted(modes, "fmode")
+        via = "run" if fixed else "with" if with_p and sim.draw_bool(with_p, "via-async-with") else "run"
         a = new("run", fmode, via)
         granted = m.acquire(a)
         recs[a]["waited"] = not granted
         recs[a]["state"] = "waiting"
         sim.event(via, a, fmode, "grant" if granted else "wait")
         if via == "run":
-            with sim.guard("op-raised", "run"):
+            with guard("op-raised", "run"):
                 d = prim.run(make_f(a), a)
         else:
             sim.probe("async_with_client")
-            with sim.guard("op-raised", "async-with"):
+            with guard("op-raised", "async-with"):
                 d = start_with(a)
         recs[a]["d"] = d
         d.addBoth(on_run_result, a)
         if granted:
-            sim.check("granted-when-free", recs[a]["f_calls"] == 1, via, lambda: "capacity free but f of run %d not called" % a)
+            check("granted-when-free", recs[a]["f_calls"] == 1, via, lambda: "capacity free but f of run %d not called" % a)
         else:
-            sim.check("no-early-grant", recs[a]["f_calls"] == 0 and not recs[a]["res"], via, lambda: "no capacity but run %d started" % a)
+            check("no-early-grant", recs[a]["f_calls"] == 0 and not recs[a]["res"], via, lambda: "no capacity but run %d started" % a)
+
+    def op_burst():
+        # one client hands in a whole batch while nothing is free: the requests queue up behind the holders (and behind whatever
+        # waits already); most are run() calls whose function has its result at once, so that one release later hands the unit
+        # on through the whole batch in one go; a few hold on (plain acquisitions, results that come later)
+        n = st["burst"]
+        st["burst"] = 0
+        if deep:
+            # the deep batch: n identical run() calls, each with its result at once
+            sim.probe("deep_queue_burst")
+            fmode = sim.draw_weighted(SYNC_F_MODES, "deep-fmode")
+            sim.event("deep-burst", n, fmode)
+            for _ in range(n):
+                op_run(fixed=fmode)
+            return
+        sim.probe("long_queue_burst")
+        others = sim.draw_choice([0, 1, 3], "burst-others")   # 0: every request of the batch is a run() with an immediate result
+        sim.event("burst", n, others)
+        for _ in range(n):
+            kind = sim.draw_weighted([("sync-run", 16), ("run", others), ("acquire", others)], "burst-kind") if others else "sync-run"
+            if kind == "acquire":
+                op_acquire()
+            else:
+                op_run(SYNC_F_MODES if kind == "sync-run" else F_MODES)
+        if len(m.waiters) >= 32:
+            sim.probe("queue_of_32_or_more")
 
     def releasable():
         return [a for a in order if recs[a]["kind"] == "acq" and recs[a]["state"] == "holding"]
@@ -435,10 +563,10 @@ def run(sim):
         real_holders.discard(a)
         recs[a]["state"] = "released"
         sim.event("release", a, "next=%s" % (nxt if nxt is not None else "-"))
-        with sim.guard("op-raised", "release"):
+        with guard("op-raised", "release"):
             prim.release()
         if nxt is not None:
-            sim.check("granted-when-free", nxt in real_grants, "release", lambda: "release by %d: waiter %d not granted" % (a, nxt))
+            check("granted-when-free", nxt in real_grants, "release", lambda: "release by %d: waiter %d not granted" % (a, nxt))
 
     def op_resolve(a=None):
         if a is None:
@@ -474,13 +602,13 @@ def run(sim):
             finish_run(a)
         else:
             sim.probe("sub_operation_fired_result_still_outstanding")
-        with sim.guard("op-raised", "resolve"):
+        with guard("op-raised", "resolve"):
             if ok:
                 target.callback(value)
             else:
                 target.errback(BoomError(a))
         if available:
-            sim.check("run-completes", len(r["res"]) == 1, "resolve", lambda: "run %d has %d results after f's Deferred fired" % (a, len(r["res"])))
+            check("run-completes", len(r["res"]) == 1, "resolve", lambda: "run %d has %d results after f's Deferred fired" % (a, len(r["res"])))
 
     def cancellable(a):
         r = recs[a]
@@ -510,10 +638,10 @@ def run(sim):
             sim.probe("cancel_pending")
             if r["via"] == "with":
                 sim.fault("cancel_task_waiting_to_enter_async_with")
-            with sim.guard("op-raised", "cancel"):
+            with guard("op-raised", "cancel"):
                 r["d"].cancel()
             res = r["res"]
-            sim.check("cancel-fires-cancelled", len(res) == 1 and isinstance(res[0], Failure) and res[0].check(defer.CancelledError),
+            check("cancel-fires-cancelled", len(res) == 1 and isinstance(res[0], Failure) and res[0].check(defer.CancelledError),
                       "cancel", lambda: "cancelled pending %d saw %r" % (a, res))
         elif state == "async":
             # cancelling run()'s Deferred (or the async-with task) while f's Deferred is outstanding cancels
@@ -533,26 +661,27 @@ def run(sim):
             if r["via"] == "with":
                 sim.fault("cancel_holder_inside_async_with")
             finish_run(a)
-            with sim.guard("op-raised", "cancel"):
+            with guard("op-raised", "cancel"):
                 r["d"].cancel()
-            sim.check("run-completes", len(r["res"]) == 1, "cancel", lambda: "run %d has %d results after cancel" % (a, len(r["res"])))
+            check("run-completes", len(r["res"]) == 1, "cancel", lambda: "run %d has %d results after cancel" % (a, len(r["res"])))
         else:
             # granted / released / finished / already cancelled: must change nothing
             sim.probe("cancel_noop")
             before = len(r["res"])
-            with sim.guard("op-raised", "cancel"):
+            with guard("op-raised", "cancel"):
                 r["d"].cancel()
-            sim.check("cancel-granted-is-noop", len(r["res"]) == before, "cancel", lambda: "acquisition %d (state %s) fired again on cancel" % (a, state))
+            check("cancel-granted-is-noop", len(r["res"]) == before, "cancel", lambda: "acquisition %d (state %s) fired again on cancel" % (a, state))
 
     def choose_op():
         ops = [("acquire", 5), ("run", 5), ("release", 6 if releasable() else 0), ("resolve", 5 if resolvable() else 0),
-               ("cancel", 2 if any(cancellable(a) for a in order) else 0), ("companion", 3 if cprim is not None else 0)]
+               ("cancel", 2 if any(cancellable(a) for a in order) else 0), ("companion", 3 if cprim is not None else 0),
+               ("burst", (40 if deep else 6) if st["burst"] and st["depth"] == 0 and len(m.holders) == limit else 0)]
         return sim.draw_weighted(ops, "op")
 
     def do_op(op):
         sim.step(400 * sim.depth)
         {"acquire": op_acquire, "run": op_run, "release": op_release, "resolve": op_resolve, "cancel": op_cancel,
-         "companion": op_companion}[op]()
+         "companion": op_companion, "burst": op_burst}[op]()
 
     def after_op(where):
         if sim.violation is not None:
@@ -560,13 +689,14 @@ def run(sim):
         check_state(where)
         for a in order:
             r = recs[a]
-            sim.check("fires-once", len(r["res"]) <= 1, "any", lambda: "Deferred of %d fired %d times" % (a, len(r["res"])))
+            check("fires-once", len(r["res"]) <= 1, "any", lambda: "Deferred of %d fired %d times" % (a, len(r["res"])))
             if r["state"] == "waiting":
-                sim.check("no-early-grant", not r["res"] and r["f_calls"] == 0, "any", lambda: "waiting %d already fired" % a)
+                check("no-early-grant", not r["res"] and r["f_calls"] == 0, "any", lambda: "waiting %d already fired" % a)
             if r["kind"] == "run" and r["state"] == "done":
-                sim.check("run-completes", len(r["res"]) == 1, "any", lambda: "finished run %d has no result" % a)
+                check("run-completes", len(r["res"]) == 1, "any", lambda: "finished run %d has no result" % a)
 
     for _ in range(nops):
+        st["op_grants"] = 0
         do_op(choose_op())
         after_op("after-op")
         sim.state((len(m.holders), min(len(m.waiters), 4), min(len(resolvable()), 3), limit, is_lock))
@@ -583,6 +713,7 @@ def run(sim):
         inside = [a for a in order if recs[a]["via"] == "with" and recs[a]["state"] == "async"]
         entering = [a for a in order if recs[a]["via"] == "with" and recs[a]["state"] == "waiting"]
         sim.step(800 * sim.depth)
+        st["op_grants"] = 0
         if inside:
             op_resolve(inside[0])
         elif drain == "full" and resolvable():
@@ -595,13 +726,13 @@ def run(sim):
             break
         after_op("drain")
     if drain == "full":
-        sim.check("all-capacity-back-when-idle", not m.holders and not m.waiters and not prim.waiting
+        check("all-capacity-back-when-idle", not m.holders and not m.waiters and not prim.waiting
                   and (not prim.locked if is_lock else prim.tokens == limit), "drained",
                   lambda: "model holders=%r waiters=%r real waiting=%d %s" % (
                       m.holders, m.waiters, len(prim.waiting), ("locked=%r" % prim.locked) if is_lock else ("tokens=%r" % prim.tokens)))
         for a in order:
             r = recs[a]
-            sim.check("granted-when-free", r["state"] in ("released", "done", "cancelled") and (r["kind"] == "acq" or len(r["res"]) == 1),
+            check("granted-when-free", r["state"] in ("released", "done", "cancelled") and (r["kind"] == "acq" or len(r["res"]) == 1),
                       "drained", lambda: "acquisition %d ended in state %s with %d results" % (a, r["state"], len(r["res"])))
     sim.nontrivial = bool(flags["waited_then_granted"] and flags["special"])
 
@@ -624,6 +755,22 @@ MUTANTS = [
     "defer.py _ConcurrencyPrimitive.__aenter__: succeed(self) instead of acquire()  -- caught: holders-within-limit (async-with) / capacity-conserved",
     "seeded C06-r5a (run() unrolls maybeDeferred and recognises only the exact Deferred type)  -- caught: capacity-conserved (after-op) / holders-within-limit (run, acquire)",
     "seeded C06-r5b (__aexit__ skips release() when the block is left by CancelledError)  -- caught: capacity-conserved / waiters-match (at-async-with-result)",
+    "seeded C06-r6b (the canceller fails the cancelled acquisition itself and only then takes it out of the queue: a release() issued from its errback grants the dead entry)  -- caught: op-raised:release:AlreadyCalledError / run-result-is-fn-result (needs the re-entrant operations from the errback of a cancelled acquisition)",
+    "defer.py DeferredLock/DeferredSemaphore._cancelAcquire: remove the entry only after d.errback(CancelledError()) (own mutant of the same kind)  -- caught: op-raised:release:AlreadyCalledError",
+]
+
+FINDINGS = [
+    "GENUINE, KNOWN (known_findings.json: C06:handover-recursion:*; witness tape [0, 2, 0, 0, 0, 0, 0, 0, 1, 25, 0, 0, 5] = lock, one plain "
+    "acquisition, deep burst of 125 run(value) calls, full drain -> C06:handover-recursion:grants-match).  The hand-over from a finished "
+    "synchronous run() to the next queued one is a nested call (release -> grant callback -> run.execute -> f -> _releaseAndReturn -> release "
+    "...), about 8 interpreter frames per queued request; with about 125 queued the stack is exhausted inside a hand-over: release() has "
+    "taken the unit back (locked = True / tokens -= 1) and popped the waiter, the RecursionError is swallowed into one run()'s Failure (its "
+    "function never ran), nobody holds the unit, the rest of the queue is never granted.  Stand-alone: p = DeferredLock(); p.acquire(); "
+    "130 x p.run(lambda: i); p.release() -> 124 functions called, one run fails with RecursionError, 5 waiters stranded, p.locked stays True "
+    "(DeferredSemaphore(1) likewise, tokens == 0).  Source: defer.py _ConcurrencyPrimitive.run.execute / _releaseAndReturn, "
+    "DeferredLock.release, DeferredSemaphore.release.  Not repaired: an iterative hand-over moves the moment of the nested grant behind the "
+    "previous run's result callbacks (seeded change C06-r4a is a faulty version of it).  Signatures seen: handover-recursion:grants-match, "
+    ":waiters-match, :run-result-is-fn-result, :run-result-after-release (which clause notices first depends on the batch).",
 ]
 
 
